@@ -20,6 +20,11 @@ EXPLANATION = (
 
 
 def run(R):
+    common.caught_exception_attributes(R, "C15.ENGINES")
+    _run(R)
+
+
+def _run(R):
     R.extra["explanation"] = EXPLANATION
     ro = Roles(R)
     repo = R.repo
